@@ -67,7 +67,7 @@ func lenAtLeast(facts []ir.Fact, x ssa.Value, need int64) bool {
 	x = ir.Resolve(x)
 	isLen := func(v ssa.Value) bool {
 		call, ok := v.(*ssa.Call)
-		return ok && ir.Callee(call).Builtin == "len" && ir.Resolve(call.Call.Args[0]) == x
+		return ok && ir.Callee(call).Builtin == "len" && ir.SameLoad(call.Call.Args[0], x)
 	}
 	return ir.HasFact(facts, token.GTR, func(a, b ssa.Value) bool {
 		k, ok := ir.ConstInt(b)
@@ -134,7 +134,7 @@ func (c *Ctx) partialSites(scope map[*ssa.Function]bool, tb *ir.TB) (sites []par
 					// h = len(coll) - k, k >= 1
 					if len(h.Coef) == 1 && h.C <= -1 {
 						for s, co := range h.Coef {
-							if call, ok := s.(*ssa.Call); ok && co == 1 && ir.Callee(call).Builtin == "len" && ir.Resolve(call.Call.Args[0]) == cr {
+							if call, ok := s.(*ssa.Call); ok && co == 1 && ir.Callee(call).Builtin == "len" && ir.SameLoad(call.Call.Args[0], cr) {
 								upper = true
 							}
 						}
@@ -358,7 +358,7 @@ var c11Table = []obligation{
 }
 
 func (c *Ctx) c11Decide(sites []partialSite, tb *ir.TB) {
-	c.R.Explanation = "C11: the crash-freedom half is decided structurally. R-partial = every configuration-dependent partial operation (slice/array index and slice expression not proved in bounds by constant/length guards, range loops or the symbolic range analysis; integer division by a value not proved non-zero; method invoke on the result of a map lookup or (value, ok) getter whose ok is ignored, directly or via a collection; a possibly-nil control loop handed to the controller) in the call tree of InitializeObjects, controller construction, every SpeedCurve.Evaluate and UpdateFanSpeed is either discharged locally or matched by an entry of the validator-obligation table naming the configuration field it depends on; for each entry the call tree of configuration.Validate must contain the corresponding check (len(F) <= 0, !exists(F), both-nil) on an edge from which every return carries a non-nil error, and the validator's error must reach Validate's result. A site with no local guard and no table entry is a violation (a new unguarded partial operation). R-dispatch = for fans, sensors and curves the set of backend fields the factory dispatches on equals the set the validator counts, and the validator rejects count > 1 and count <= 0. R-cycle = the validator's acyclicity verdict comes from tarjan.Connections over a graph that receives, for every function curve, an edge list built from every element of its member list; components larger than one and self references yield errors; the verdict is returned. R-gate = RunDaemon is entered only after Validate succeeded. Not decided: uniqueness/acceptance semantics, correctness of the SCC library, the converse (documented forms are accepted), the binary search's interior index arithmetic."
+	c.R.Explanation = "C11: the crash-freedom half is decided structurally. R-partial = every configuration-dependent partial operation (slice/array index and slice expression not proved in bounds by constant/length guards, range loops or the symbolic range analysis; integer division by a value not proved non-zero; method invoke on the result of a map lookup or (value, ok) getter whose ok is ignored, directly or via a collection; a possibly-nil control loop handed to the controller) in the call tree of InitializeObjects, controller construction, every SpeedCurve.Evaluate and UpdateFanSpeed is either discharged locally or matched by an entry of the validator-obligation table naming the configuration field it depends on; for each entry the call tree of configuration.Validate must contain the corresponding check (len(F) <= 0, !exists(F), both-nil) on an edge from which every return carries a non-nil error, and the validator's error must reach Validate's result. A site with no local guard and no table entry is a violation (a new unguarded partial operation). R-dispatch = for fans, sensors and curves the set of backend fields the factory dispatches on equals the set the validator counts, and the validator rejects count > 1 and count <= 0. R-cycle = the validator's acyclicity verdict comes from tarjan.Connections over a graph that receives, for every function curve, an edge list built from every element of its member list; components larger than one and self references yield errors; the verdict is returned. R-gate = RunDaemon is entered only after Validate succeeded. R-cycle own-members = the edge list stored for a curve starts empty for that curve: it is not carried round the loop over the curves (extra edges from earlier curves can close a cycle the configuration does not contain, and a valid configuration is rejected). Not decided: uniqueness/acceptance semantics, correctness of the SCC library, the converse (documented forms are accepted), the binary search's interior index arithmetic."
 	c.R.Assumptions = append(c.R.Assumptions,
 		"github.com/looplab/tarjan.Connections returns the strongly connected components of the given graph (trusted library summary)",
 		"len(values) == len(curves) == len(function.curves) in FunctionSpeedCurve.Evaluate (one append per element, checked by R-members)")
@@ -1158,6 +1158,47 @@ func (c *Ctx) ruleCycle(vtree map[*ssa.Function]bool, tb *ir.TB, rejects func(*s
 		c.R.Ok("R-cycle", "graph", c.FK(graphFn), c.P.Pos(update.Pos()), "graph[curve id] = list appended with every element of function.curves")
 	} else {
 		c.R.Bad("R-cycle", "graph", c.FK(graphFn), c.P.Pos(update.Pos()), sprintf("the graph entry is not (curve id -> all members): key from ID=%v, value from every member=%v", keyOK, valOK))
+	}
+	// only its own members: the edge list stored for a curve starts empty for that curve. A list that is carried
+	// round the loop over the curves (declared outside it) also holds the members of the curves listed before:
+	// extra edges can close a cycle the configuration does not contain, and a valid configuration is rejected.
+	if edgeFn == graphFn {
+		outer := loopHead(update.Block())
+		carried := ""
+		seen := map[ssa.Value]bool{}
+		var walk func(v ssa.Value, depth int)
+		walk = func(v ssa.Value, depth int) {
+			v = ir.Resolve(v)
+			if seen[v] || depth > 12 {
+				return
+			}
+			seen[v] = true
+			switch x := v.(type) {
+			case *ssa.Phi:
+				if outer != nil && x.Block() == outer {
+					carried = c.P.Pos(x.Pos())
+					if carried == "-" || carried == "" {
+						carried = "the head of the loop over the curves"
+					}
+					return
+				}
+				for _, e := range x.Edges {
+					walk(e, depth+1)
+				}
+			case *ssa.Call:
+				if ir.Callee(x).Builtin == "append" && len(x.Call.Args) > 0 {
+					walk(x.Call.Args[0], depth+1)
+				}
+			case *ssa.Slice:
+				walk(x.X, depth+1)
+			}
+		}
+		walk(update.Value, 0)
+		if carried != "" {
+			c.R.Bad("R-cycle", "own-members", c.FK(graphFn), c.P.Pos(update.Pos()), "the edge list stored for a curve is carried over from the previous iteration of the loop over the curves ("+carried+"): it also contains the members of curves listed earlier, so the graph has edges the configuration does not contain and an acyclic configuration can be rejected as cyclic")
+		} else {
+			c.R.Ok("R-cycle", "own-members", c.FK(graphFn), c.P.Pos(update.Pos()), "the edge list stored for a curve starts empty for that curve (not carried round the loop over the curves)")
+		}
 	}
 	// no member is skipped: from the loop body over Function.Curves every path back to the loop head passes the append or returns an error
 	skip := c.memberSkipped(edgeFn, update, tb)
